@@ -7,11 +7,14 @@ EXTENDS PayloadRef, Json
 CONSTANTS Sizes, MaxSteps, Errs, StartEof
 VARIABLES len, eof, err, senderClosed, needRead, items, task, ioTask,   \* Inner
           senderAlive, readerAlive,                                   \* the two handles
-          rs, steps, hist, nid
+          rs, steps, hist, nid, lastT
 
 NoErr == "none"
 Obs(e) == rs' = RefStep(rs, e)
+\* lastT: the transition just taken (operation and who was parked before it): part of the VIEW so that every distinct
+\* transition of the state graph, not only every distinct state, yields a replayed history
 Op(o) == /\ steps < MaxSteps /\ steps' = steps + 1 /\ hist' = Append(hist, o)
+         /\ lastT' = <<o.op, IF rs.tag = "ok" THEN rs.waitR ELSE FALSE, IF rs.tag = "ok" THEN rs.waitF ELSE FALSE>>
 Fresh == nid' = nid + 1
 Same == nid' = nid
 InnerVars == <<len, eof, err, senderClosed, needRead, items, task, ioTask>>
@@ -111,9 +114,9 @@ DropReader ==
 
 Init == /\ len = 0 /\ eof = StartEof /\ err = NoErr /\ senderClosed = StartEof /\ needRead = TRUE /\ items = <<>>
         /\ task = FALSE /\ ioTask = FALSE /\ senderAlive = TRUE /\ readerAlive = TRUE
-        /\ rs = (IF StartEof THEN RefInitEof ELSE RefInit) /\ steps = 0 /\ hist = <<>> /\ nid = 1
+        /\ rs = (IF StartEof THEN RefInitEof ELSE RefInit) /\ steps = 0 /\ hist = <<>> /\ nid = 1 /\ lastT = <<"none", FALSE, FALSE>>
 Next == FeedData \/ FeedEof \/ SetError \/ DropSender \/ NeedRead \/ Poll \/ Unread \/ DropReader
-vars == <<len, eof, err, senderClosed, needRead, items, task, ioTask, senderAlive, readerAlive, rs, steps, hist, nid>>
+vars == <<len, eof, err, senderClosed, needRead, items, task, ioTask, senderAlive, readerAlive, rs, steps, hist, nid, lastT>>
 Spec == Init /\ [][Next]_vars
 
 RefAccepts == rs.tag = "ok"
@@ -123,5 +126,5 @@ Abstraction == (rs.tag = "ok" /\ readerAlive) => (rs.q = items /\ len = SumQ(ite
 ParkedReaderRegistered == (rs.tag = "ok" /\ rs.waitR /\ readerAlive) => task
 ParkedFeederRegistered == (rs.tag = "ok" /\ rs.waitF /\ readerAlive) => ioTask
 Emit == steps > 0 => PrintT(<<"CASE", ToJson([eof |-> StartEof, ops |-> hist])>>)
-View == <<len, eof, err, senderClosed, needRead, items, task, ioTask, senderAlive, readerAlive, rs, nid, steps>>
+View == <<len, eof, err, senderClosed, needRead, items, task, ioTask, senderAlive, readerAlive, rs, nid, steps, lastT>>
 =================================================================================
